@@ -634,6 +634,8 @@ class PathState:
         self.ex = explorer
         self.prefix = prefix
         self.decisions = []          # bools taken so far
+        self.branches = []           # the subset taken at real branch points (both outcomes feasible)
+        self.trail = []              # (choice, was_branch_point) per decision: the replayable prefix
         self.pc = []                 # z3 Bool terms (assumptions + decisions)
         self.inputs = {}             # name -> z3 const (declared inputs, for models)
         self.choices = {}            # name -> chosen python value index
@@ -744,8 +746,9 @@ class PathState:
     def decide(self, t):
         ex = self.ex
         i = len(self.decisions)
+        branched = False
         if i < len(self.prefix):
-            choice = self.prefix[i]
+            choice, branched = self.prefix[i]
         else:
             ex.report.decisions += 1
             if ex.deadline and time.time() > ex.deadline:
@@ -757,14 +760,17 @@ class PathState:
             if not ft and not ff:
                 raise Infeasible()
             if ft and ff:
-                choice = True
-                ex.push_alternative(self.decisions + [False])
+                choice, branched = True, True
+                ex.push_alternative(self.trail + [(False, True)])
             else:
                 choice = ft
         self.decisions.append(choice)
+        self.trail.append((choice, branched))
         self._add(t if choice else z3.Not(t))
-        if ex.shard and len(self.decisions) == ex.shard[2] and not ex.owns(self.decisions):
-            raise NotMine()
+        if branched:
+            self.branches.append(choice)
+            if ex.shard and len(self.branches) == ex.shard[2] and not ex.owns(self.branches):
+                raise NotMine()
         return choice
 
     # ---- calling code under test
@@ -815,11 +821,16 @@ class PathState:
             verdict, backend = str(r), "z3-inc"
             if r == z3.unknown:
                 verdict, model, backend, _ = solve_exact(self.pc + [neg], self.ex.vc_timeout_ms)
-        goal = str(cond.t if isinstance(cond, SymBool) else cond)
-        sample = dict(pc_size=len(self.pc), verdict=verdict, goal=goal[:300])
-        viol = None
-        if verdict == "sat":
-            viol = dict(model=self._model_dict(model), decisions=list(self.decisions), note=note, goal=goal[:500])
+        sample = viol = None
+        need_sample = name not in self.ex.report.obs or self.ex.report.obs[name].sample is None
+        if need_sample or verdict == "sat":
+            g = cond.t if isinstance(cond, SymBool) else cond
+            goal = g.sexpr() if isinstance(g, z3.ExprRef) else str(g)
+            goal = " ".join(goal.split())
+            if need_sample:
+                sample = dict(pc_size=len(self.pc), verdict=verdict, goal=goal[:300])
+            if verdict == "sat":
+                viol = dict(model=self._model_dict(model), decisions=list(self.decisions), note=note, goal=goal[:600])
         self.results.append((name, verdict, backend, time.time() - t0, viol, sample))
         return True if verdict == "unsat" else (False if verdict == "sat" else None)
 
@@ -914,7 +925,7 @@ class Explorer:
             rep.paths += 1
             try:
                 self.program(st)
-                if self.owns(st.decisions):
+                if self.owns(st.branches):
                     self.commit(st)
                     if st.feasible():
                         rep.paths_completed += 1
